@@ -3,14 +3,14 @@ EXTENDS C01_Handshake, Json
 \* The replay graphs: one node per abstract state, one edge per (state, op, state').  The Noise and TLS
 \* machines are deterministic functions of their configuration and of the actions taken so far (tr), so
 \* the projection below identifies the state; the terms themselves are not printed.
-St == CASE st.part = "N" -> [cfg |-> st.cfg, tr |-> st.tr, k |-> st.k, air |-> Len(st.air),
+St == CASE st.part = "N" -> [cfg |-> st.cfg, warm |-> st.warm, tr |-> st.tr, k |-> st.k, air |-> Len(st.air),
                              iS |-> st.iS, rS |-> st.rS, iRem |-> st.iRem, rRem |-> st.rRem]
-       [] st.part = "T" -> [mal |-> st.mal, exp |-> st.exp, ec |-> st.ec, es |-> st.es, tr |-> st.tr, done |-> st.done, ok |-> st.ok,
+       [] st.part = "T" -> [mal |-> st.mal, exp |-> st.exp, ec |-> st.ec, es |-> st.es, warm |-> st.warm, tr |-> st.tr, done |-> st.done, ok |-> st.ok,
                             rem |-> st.rem, cert |-> [key |-> st.cert.key, chain |-> st.cert.chain,
                                                       exts |-> [i \in 1..Len(st.cert.exts) |->
                                                                  [pub |-> st.cert.exts[i].pub, sby |-> st.cert.exts[i].sig.by,
                                                                   sover |-> st.cert.exts[i].sig.over]]]]
-       [] OTHER -> [outs |-> st.outs, done |-> st.done, res |-> st.res, visible |-> st.visible,
+       [] OTHER -> [outs |-> st.outs, warm |-> st.warm, warmed |-> st.warmed, done |-> st.done, res |-> st.res, visible |-> st.visible,
                     closed |-> st.closed, tried |-> st.tried]
 EmitEdge == PrintT(<<"VFEDGE", ToJson([s |-> St, op |-> op', t |-> St'])>>)
 MCInitN == InitN /\ PrintT(<<"VFINIT", ToJson(St)>>)
